@@ -498,6 +498,13 @@ impl<T: Clone> DependentParameters<T> {
         ]
     }
 
+    pub(crate) fn verif_adapt<V>(&self, component: V) -> V
+    where
+        V: Real + FromScalar<Scalar = T> + Abs + Signum + Powf + Arithmetics + Clone,
+    {
+        self.adapt.run(component)
+    }
+
     pub(crate) fn verif_from_fields(f: [T; 17]) -> Self {
         let [d0, d1, d2, i0, i1, i2, n, n_bb, n_c, n_cb, a_w, c, z, f_l_4, f_l, constant, exponent] =
             f;
